@@ -122,7 +122,8 @@ func runC05(t *testing.T, tape *sim.Tape, tier string) *Outcome {
 		if len(acts) == 0 {
 			break
 		}
-		if clockOn && tape.Draw(4, "tick") == 0 {
+		// the bubble clock is int64 nanoseconds from 2000-01-01: keep the total advance far below its range
+		if clockOn && time.Since(simStart) < 80*365*24*time.Hour && tape.Draw(4, "tick") == 0 {
 			d := []time.Duration{time.Millisecond, 999 * time.Millisecond, time.Second, 61 * time.Second, time.Hour, 24 * time.Hour, 400 * 24 * time.Hour}[tape.Draw(7, "dt")]
 			time.Sleep(d)
 			w.S.Logf("sched", "clock +%s", d)
